@@ -20,6 +20,7 @@ import (
 	"strings"
 	"sync"
 
+	oaerrors "github.com/go-openapi/errors"
 	"github.com/go-openapi/loads"
 	"github.com/go-openapi/runtime"
 	"github.com/go-openapi/runtime/middleware"
@@ -275,7 +276,8 @@ func installAuth(api *operations.VfAPI) []string {
 			princ := reflect.Zero(pt)
 			errV := reflect.Zero(errorType)
 			if !ok {
-				errV = reflect.ValueOf(fmt.Errorf("bad credentials for %s", name)).Convert(errorType)
+				// what the go-swagger documentation's authenticators return for bad credentials
+				errV = reflect.ValueOf(oaerrors.New(401, "incorrect credentials for %s", name)).Convert(errorType)
 				return []reflect.Value{princ, errV}
 			}
 			label := name + ":" + token
